@@ -2,6 +2,8 @@
 from .. import encode, gen_value, model, rebuild, runner, valcases
 from ..common import d42  # noqa: F401
 from niltype import Nil
+import datetime as _dt
+
 from d42 import optional, schema, validate
 from d42.declaration.types import (AnySchema, DictSchema, FloatSchema, IntSchema, ListSchema, StrSchema)
 
@@ -230,6 +232,11 @@ def run(ctx):
                    (lambda: schema.float.precision(1), lambda: schema.float.precision(True)),
                    # the same keys declared in another order, the `...: ...` marker at another position (declared so, or by +)
                    (lambda: schema.dict({"id": schema.int, ...: ...}), lambda: schema.dict({...: ..., "id": schema.int})),
+                   # the same instant written with two UTC offsets; a date and the datetime at its midnight
+                   (lambda: schema.datetime(_dt.datetime(2024, 2, 29, 12, 0, tzinfo=_dt.timezone.utc)),
+                    lambda: schema.datetime(_dt.datetime(2024, 2, 29, 15, 0, tzinfo=_dt.timezone(_dt.timedelta(hours=3))))),
+                   (lambda: schema.date(_dt.date(2024, 2, 29)), lambda: schema.date(_dt.datetime(2024, 2, 29, 0, 0))),
+                   (lambda: schema.float(0.0), lambda: schema.float(-0.0)), (lambda: schema.str("\u00e9"), lambda: schema.str("e\u0301")),
                    (lambda: schema.dict({"a": schema.int, "b": schema.str}), lambda: schema.dict({"b": schema.str, "a": schema.int})),
                    (lambda: schema.dict({"id": schema.int, "n": schema.str, ...: ...}),
                     lambda: schema.dict({"id": schema.int, ...: ...}) + schema.dict({"n": schema.str})),
@@ -243,7 +250,9 @@ def run(ctx):
             ctx.count("twin_pairs_not_declarable")
     wraps = [lambda t: t, lambda t: schema.list([t, ...]), lambda t: schema.dict({optional("k"): t, ...: ...}),
              lambda t: schema.any(t, schema.str), lambda t: schema.dict({"a": schema.list(schema.any(t, schema.none))})]
-    inner_probes = [1, True, 0, False, 1.0, 0.0, 2, "1", None, [], [1], [True], "", {}, {"id": 1}, {"id": "x"}, {"id": 1, "n": 2},
+    inner_probes = [_dt.datetime(2024, 2, 29, 12, 0, tzinfo=_dt.timezone.utc), _dt.datetime(2024, 2, 29, 15, 0, tzinfo=_dt.timezone(_dt.timedelta(hours=3))),
+                    _dt.datetime(2024, 2, 29, 12, 0), _dt.date(2024, 2, 29), _dt.datetime(2024, 2, 29, 0, 0), -0.0, "\u00e9", "e\u0301",
+                    1, True, 0, False, 1.0, 0.0, 2, "1", None, [], [1], [True], "", {}, {"id": 1}, {"id": "x"}, {"id": 1, "n": 2},
                     {"a": 1, "b": "s"}, {"a": "s", "b": 1}, {"r": None}, {"r": 1, "o": 1}, {"o": "x", "r": None}, {"id": 1, "n": "s", "z": 0}]
     for a0, b0 in twins:
         for wi, wr in enumerate(wraps):
